@@ -58,6 +58,9 @@ CHECKS = {
  "C10": ("exploration", "runtime monitor: generated Go values -> record literal -> real converters (SexpToGoStructs, receiver/argument conversion of Go method calls, Echo round trip), compared by canonical rendering with pointer identity; negative cases must error",
          "Random values of harness-registered struct types covering every supported field kind (three levels of embedding, shared records, interface-typed members) are written as record literals, converted by the real reflection code through the Go API and through Go method calls, compared with the generated value, sent through an identity method and converted again; records with one undeclared field or one wrong-kind value must make every conversion route report an error.",
          "Trusted: the canonical renderer of the harness; time.Time is only checked in the record->Go direction (the way back is pinned to nil by the repository's own test).", "DESIGN.md §4.C10"),
+ "C08": ("exploration", "runtime monitor: canary files / environment / marker paths, an inotify watch on the canary directory and (thorough) strace of cmd/zygo -sandbox, while every name a sandboxed interpreter knows is invoked with hostile arguments",
+         "Every global, macro, builtin, reserved word and compiler special form of a bare and a standard-setup sandbox (plus 40 names of outside-world primitives) is called with 24 argument shapes and through aliases, apply, map, eval, str2sym, macros and infix; value-level canaries (nonce in results, new globals, changed/created paths, environment sentinel), an in-process inotify watch and, in the thorough tier, the system calls of the real CLI under strace decide whether the outside world was reached.",
+         "Outside world = files, processes, environment, exit, sockets; the monitors see the canary directory and the traced calls only.", "DESIGN.md §4.C08"),
 }
 
 NA_REASON = {}
@@ -84,7 +87,7 @@ def main():
     na = [{"property_id": p, "reason": NA_REASON.get(p, "check not built yet in this session; no claim is made")} for p in ALL if p not in CHECKS]
     m = {
         "version": 1,
-        "setup_cmd": "cd /verif/harness && cp /repo/go.sum go.sum && GOFLAGS=-mod=mod GOPROXY=off go build -tags verif -o /verif/bin/vcheck ./cmd/vcheck",
+        "setup_cmd": "cd /verif/harness && cp /repo/go.sum go.sum && GOFLAGS=-mod=mod GOPROXY=off go build -tags verif -o /verif/bin/vcheck ./cmd/vcheck && GOFLAGS=-mod=mod GOPROXY=off go build -tags verif -o /verif/bin/zygo github.com/glycerine/zygomys/v9/cmd/zygo",
         "hooks": {
             "guard": "verif",
             "enable": "go build -tags verif (harness module zyverif replaces github.com/glycerine/zygomys/v9 by /repo; every ./run rebuilds from the working tree)",
